@@ -130,6 +130,10 @@ def tlc(ctx, module, cfg, name=None, workers=None, timeout=600, dump=None, simul
             open(p, "w").write(s)
     workers = workers or NPROC
     jopts = ["-XX:+UseParallelGC", "-Xss64m"] + (java_opts or [])
+    if not any(o.startswith("-Xmx") for o in jopts):
+        # the JVM default (a quarter of the machine per process) let parallel slice generators be OOM-killed when several checks
+        # shared the machine; the slices need < 2 GB each (measured), the many-worker model checks < 8 GB
+        jopts.append("-Xmx4g" if workers <= 2 else "-Xmx12g")
     cmd = ["java"] + jopts + ["-cp", TLA_CP, "tlc2.TLC", "-metadir", os.path.join(d, "meta"),
                               "-workers", str(workers), "-config", os.path.basename(cfg)]
     if not deadlock:
